@@ -69,7 +69,7 @@ def program_for(bp, decl, seed, horizon=HORIZON, with_ic=None):
         # depend on the declaration order being replayed
         params[i] = {'alpha_income': _dec(rnd, 0.5, 0.9), 'alpha_fin': _dec(rnd, 0.1, 0.5),
                      'margin': rnd.choice([0.1, 0.2, 0.25]), 'taxrate': _dec(rnd, 0.1, 0.3),
-                     'wgt': _dec(rnd, 0.2, 0.7), 'gift': _dec(rnd, 0.01, 0.09)}
+                     'wgt': _dec(rnd, 0.2, 0.7), 'gift': _dec(rnd, 0.01, 0.09), 'gold': _dec(rnd, 10, 80, 0)}
     declared = set()
     pending_tre = []
     for s in decl:
@@ -91,6 +91,8 @@ def program_for(bp, decl, seed, horizon=HORIZON, with_ic=None):
             a = {'taxrate': params[s]['taxrate'], 'taxes_paid_to': d['taxto']}
         elif k in ('MoneyMarket', 'DepositMarket'):
             a = {'issuer_short_code': d['issuer']}
+        elif k == 'GoldStandardGovernment':
+            a = {'initial_gold_stock': params[s]['gold']}
         elif k == 'CentralBank':
             if d['tre'] and d['trector']:
                 a = {'treasury': '@' + ref(d['tre'])}
